@@ -542,6 +542,7 @@ impl<S: Storage> Builder<S> {
             .register(id, span.clone(), output_row_counter.clone());
 
         let (tx, rx) = async_broadcast::broadcast(16);
+        let tx = PanicGuard(tx);
         #[cfg(risinglight_verif)]
         let verif_name = format!("{id}.{name}");
         let handle = tokio::task::Builder::default()
@@ -556,7 +557,7 @@ impl<S: Storage> Builder<S> {
                         if let Ok(chunk) = &item {
                             output_row_counter.inc(chunk.cardinality() as _);
                         }
-                        if tx.broadcast(item).await.is_err() {
+                        if tx.0.broadcast(item).await.is_err() {
                             // all receivers are dropped, stop the task.
                             return;
                         }
@@ -613,6 +614,20 @@ impl StreamSubscriber {
             drop(handle);
         }
         to_stream(self.rx.activate_cloned(), self.handle.clone())
+    }
+}
+
+/// Reports a panic of the executor task to the subscribers, which would otherwise take the
+/// closed channel for the end of the stream and return a partial result.
+struct PanicGuard(async_broadcast::Sender<Result<DataChunk>>);
+
+impl Drop for PanicGuard {
+    fn drop(&mut self) {
+        if std::thread::panicking() {
+            // make room if the channel is full: the statement fails anyway
+            self.0.set_overflow(true);
+            let _ = self.0.try_broadcast(Err(ExecutorError::panicked()));
+        }
     }
 }
 
